@@ -508,6 +508,97 @@ func wrongTypeMatrix(res *hx.Result) int {
 	return n
 }
 
+// oversizedReplies (C12): well-formed replies of the right type whose content is more than was asked for
+// (an Rread carrying more data than the Tread's count, yet within msize).  The client must not crash - neither
+// in Session.Read (which may not report more bytes than the caller's buffer holds) nor in its own users of
+// Read (the directory reader of CFileSys slices its buffer by the count returned).
+func oversizedReplies(res *hx.Result) int {
+	n := 0
+	for _, extra := range []int{1, 7, 300, 4000} {
+		cli, srv := gconn.Pair(0)
+		raw := p9p.NewChannel(srv, p9p.DefaultMSize)
+		bg := context.Background()
+		go func() {
+			var tv p9p.Fcall
+			if raw.ReadFcall(bg, &tv) != nil {
+				return
+			}
+			raw.WriteFcall(bg, &p9p.Fcall{Type: p9p.Rversion, Tag: p9p.NOTAG, Message: p9p.MessageRversion{MSize: p9p.DefaultMSize, Version: "9P2000"}})
+			for {
+				var fc p9p.Fcall
+				if raw.ReadFcall(bg, &fc) != nil {
+					return
+				}
+				var m p9p.Message
+				switch v := fc.Message.(type) {
+				case p9p.MessageTread:
+					d := make([]byte, int(v.Count)+extra)
+					for i := range d {
+						d[i] = byte(i)
+					}
+					m = p9p.MessageRread{Data: d}
+				case p9p.MessageTattach:
+					m = p9p.MessageRattach{Qid: p9p.Qid{Type: p9p.QTDIR, Path: 1}}
+				case p9p.MessageTwalk:
+					m = p9p.MessageRwalk{Qids: make([]p9p.Qid, len(v.Wnames))}
+				case p9p.MessageTopen:
+					m = p9p.MessageRopen{Qid: p9p.Qid{Type: p9p.QTDIR, Path: 1}}
+				case p9p.MessageTclunk:
+					m = p9p.MessageRclunk{}
+				default:
+					m = p9p.MessageRerror{Ename: "no"}
+				}
+				raw.WriteFcall(bg, &p9p.Fcall{Type: m.Type(), Tag: fc.Tag, Message: m})
+			}
+		}()
+		sess, err := p9p.CSession(bg, cli)
+		if err != nil {
+			res.Violate("harness", "harness:oversized-session", err.Error(), nil)
+			cli.Close()
+			continue
+		}
+		rep := map[string]interface{}{"engine": "client", "oversized_rread_extra_bytes": extra}
+		for _, want := range []int{0, 1, 16, 64} {
+			n++
+			p := make([]byte, want)
+			var k int
+			ctx, cancel := context.WithTimeout(bg, 3*time.Second)
+			ok, dump := hx.RunTimed(4*time.Second, func() { k, err = sess.Read(ctx, 5, p, 0) })
+			cancel()
+			if !ok {
+				res.Violate("C12", "oversized-rread:read-crashes-or-hangs", fmt.Sprintf("Read into a %d byte buffer, answered with an Rread of %d bytes: %s", want, want+extra, hx.Trunc(dump, 1000)), rep)
+			} else if k > want {
+				res.Violate("C12", "oversized-rread:count-exceeds-buffer", fmt.Sprintf("Read into a %d byte buffer, answered with an Rread of %d bytes, reports n=%d (err %v): the caller slicing p[:n] crashes", want, want+extra, k, err), rep)
+			}
+		}
+		// the library's own consumer: listing a directory through CFileSys
+		n++
+		ok, dump := hx.RunTimed(6*time.Second, func() {
+			ctx, cancel := context.WithTimeout(bg, 4*time.Second)
+			defer cancel()
+			fsys := p9p.CFileSys(sess)
+			root, err := fsys.Attach(ctx, "u", "/", nil)
+			if err != nil {
+				return
+			}
+			next, err := root.OpenDir(ctx)
+			if err != nil {
+				return
+			}
+			for i := 0; i < 3; i++ {
+				if _, err := next(ctx); err != nil {
+					return
+				}
+			}
+		})
+		if !ok && strings.HasPrefix(dump, "PANIC:") {
+			res.Violate("C12", "oversized-rread:listing-panics", fmt.Sprintf("listing a directory through CFileSys, every Tread answered with %d bytes more than asked for: %s", extra, hx.Trunc(dump, 1200)), rep)
+		}
+		cli.Close()
+	}
+	return n
+}
+
 func Client(args []string) {
 	fl := flag.NewFlagSet("client", flag.ExitOnError)
 	scPath := fl.String("scenarios", "", "ndjson file of scenarios")
@@ -519,6 +610,7 @@ func Client(args []string) {
 	defer res.Write(*out)
 	if *matrix {
 		res.Set("wrongtype_cases", wrongTypeMatrix(res))
+		res.Set("oversized_reply_cases", oversizedReplies(res))
 	}
 	var scs []cliScenario
 	if err := hx.ReadNDJSON(*scPath, func(b []byte) error {
